@@ -131,6 +131,16 @@ func oracleC05(w *h.Worker, b *h.Built, inst string, st *trie.SlimTrie, u *input
 		if err != nil {
 			return &h.Viol{Sig: "load-error", Msg: "Unmarshal(Marshal()) failed: " + err.Error()}
 		}
+		// loaded from a buffer in which other bytes follow the stream: what the
+		// instance marshals is its own stream, not the caller's buffer
+		if st4, err4 := trie.NewSlimTrie(b.Encoder, nil, nil); err4 == nil {
+			long := append(append([]byte{}, buf...), bytes.Repeat([]byte{0x00, 0xa5}, 37)...)
+			if err := st4.Unmarshal(long); err == nil {
+				if buf4, _ := st4.Marshal(); !bytes.Equal(buf4, buf) || proto.Size(st4) != len(buf) {
+					return &h.Viol{Sig: "remarshal-differs", Msg: fmt.Sprintf("an instance loaded from a buffer in which 74 other bytes follow the stream marshals %d bytes (proto.Size %d), its stream has %d", len(buf4), proto.Size(st4), len(buf))}
+				}
+			}
+		}
 		buf3, _ := st2.Marshal()
 		w.Trans++
 		if !bytes.Equal(buf, buf3) {
